@@ -210,11 +210,25 @@ Proof. apply (slices_good (wf_val tb)); reflexivity. Qed.
 (* ------------------------------------------------------------------------------------------------ *)
 (* decidable equalities *)
 
+Lemma bname_of_idx_idx b : bname_of_idx (bname_idx b) = b.
+Proof. destruct b; reflexivity. Qed.
+
+Lemma battr_of_idx_idx a : battr_of_idx (battr_idx a) = a.
+Proof. destruct a; reflexivity. Qed.
+
 Lemma bname_beq_eq a b : bname_beq a b = true <-> a = b.
-Proof. split; [apply internal_bname_dec_bl | apply internal_bname_dec_lb]. Qed.
+Proof.
+  unfold bname_beq. split; intro H.
+  - apply Nat.eqb_eq in H. rewrite <- (bname_of_idx_idx a), <- (bname_of_idx_idx b), H. reflexivity.
+  - subst. apply Nat.eqb_refl.
+Qed.
 
 Lemma battr_beq_eq a b : battr_beq a b = true <-> a = b.
-Proof. split; [apply internal_battr_dec_bl | apply internal_battr_dec_lb]. Qed.
+Proof.
+  unfold battr_beq. split; intro H.
+  - apply Nat.eqb_eq in H. rewrite <- (battr_of_idx_idx a), <- (battr_of_idx_idx b), H. reflexivity.
+  - subst. apply Nat.eqb_refl.
+Qed.
 
 Lemma bname_beq_refl a : bname_beq a a = true.
 Proof. apply bname_beq_eq; reflexivity. Qed.
@@ -1116,7 +1130,7 @@ Section Main3.
   Lemma classobj_user_head k p args :
     instance_match tb rec (MClass k) (TCls (CU p) args) = inh (TCls (CU p) args) (VClass k).
   Proof.
-    assert (Ht : In B_type vclasses) by (simpl; tauto).
+    assert (Ht : In B_type vclasses) by (simpl; tauto). unfold rec.
     rewrite (inst_match_user tb T (MClass k) B_type p args (class_have k) Ht eq_refl (classobj_attrs_AU k)).
     destruct k; reflexivity.
   Qed.
@@ -1129,7 +1143,7 @@ Section Main3.
 
   Lemma wf_class_rep k : wf_val tb (VClass k) = true -> exists r, rep k = Some r.
   Proof.
-    destruct k as [b|n]; simpl; intro H; [|eauto].
+    destruct k as [b|n]; cbn [wf_val]; intro H; [|simpl; eauto].
     destruct (rep (CB b)); [eauto|discriminate].
   Qed.
 
@@ -1194,7 +1208,107 @@ Section Main3.
     - unfold rec, inh. cbn [matchm inhabitsF]. rewrite Eft.
       apply (inst_match_none tb T (inst0 (CB B_t_Callable)) B_t_Callable B_tuple (TTuple ts) eq_refl Hc); try reflexivity.
       simpl; tauto.
-    - reflexivity.
-    - reflexivity.
   Qed.
 End Main3.
+
+(* ------------------------------------------------------------------------------------------------ *)
+(* main theorem on slices *)
+
+Lemma wf_forall_agree tb (ts : list ty) :
+  Forall (fun t => wf_ty tb t = true -> agree tb t) ts -> forallb (wf_ty tb) ts = true -> Forall (agree tb) ts.
+Proof.
+  intros H Hw. apply forallb_Forall in Hw. rewrite Forall_forall in *. intros t Ht. apply H; auto.
+Qed.
+
+Lemma bcls_none s : bcls s = None ->
+  (exists c, s = VInst c) \/ (exists k, s = VClass k) \/ (exists m o st, s = VFunc m o st).
+Proof. destruct s; simpl; intro H; try discriminate; eauto 6. Qed.
+
+Theorem matchm_slice tb : tok tb -> forall t, wf_ty tb t = true -> agree tb t.
+Proof.
+  intros T. induction t using ty_ind'; intros Hwf s Hs Hw.
+  - reflexivity.
+  - cbn [matchm inhabitsF]. cbn [wf_ty] in Hwf. pose proof (wf_forall_agree tb ts H Hwf) as HA.
+    apply existsb_ext_Forall. eapply Forall_impl; [|exact HA]. intros a Ha. apply Ha; assumption.
+  - destruct (bcls s) as [c'|] eqn:Eb.
+    + destruct c as [hb|p].
+      * destruct (wf_ty_cls_cb tb hb args Hwf) as [Hh [Hlen Hargs]].
+        apply (cls_binst tb T s c' hb args Eb Hh Hlen (wf_forall_agree tb args H Hargs) Hs Hw).
+      * apply (cu_binst tb T s c' p args Eb).
+    + destruct (bcls_none s Eb) as [[n E]|[[k E]|[m [o [st E]]]]]; subst s.
+      * apply (vinst_all tb T n _ Hwf I).
+      * apply (vclass_all tb T k _ Hwf Hw I). intros u Hu.
+        destruct c as [[]|]; try contradiction. destruct args as [|u' args]; [contradiction|]. subst u'.
+        destruct (wf_ty_cls_cb tb B_type (u :: args) Hwf) as [_ [_ Hargs]].
+        pose proof (wf_forall_agree tb _ H Hargs) as HA. inversion HA; assumption.
+      * apply (vfunc_all tb T m o st _ Hwf I).
+  - destruct (bcls s) as [c'|] eqn:Eb.
+    + cbn [wf_ty] in Hwf. apply (ttuple_binst tb T s c' ts Eb (wf_forall_agree tb ts H Hwf) Hs Hw).
+    + destruct (bcls_none s Eb) as [[n E]|[[k E]|[m [o [st E]]]]]; subst s.
+      * apply (vinst_all tb T n _ Hwf I).
+      * apply (vclass_all tb T k _ Hwf Hw I). intros u Hu. contradiction.
+      * apply (vfunc_all tb T m o st _ Hwf I).
+  - destruct (bcls s) as [c'|] eqn:Eb.
+    + apply (callable_binst tb T s c' _ Eb). left; eauto.
+    + destruct (bcls_none s Eb) as [[n E]|[[k E]|[m [o [st E]]]]]; subst s.
+      * apply (vinst_all tb T n _ Hwf I).
+      * apply (vclass_all tb T k _ Hwf Hw I). intros u Hu. subst u. apply IHt. exact Hwf.
+      * apply (vfunc_all tb T m o st _ Hwf I).
+  - destruct (bcls s) as [c'|] eqn:Eb.
+    + apply (callable_binst tb T s c' _ Eb). right; eauto.
+    + destruct (bcls_none s Eb) as [[n E]|[[k E]|[m [o [st E]]]]]; subst s.
+      * apply (vinst_all tb T n _ Hwf I).
+      * apply (vclass_all tb T k _ Hwf Hw I). intros u Hu. subst u. apply IHt. exact Hwf.
+      * apply (vfunc_all tb T m o st _ Hwf I).
+Qed.
+
+(* ------------------------------------------------------------------------------------------------ *)
+(* characterisation of the two matching modes *)
+
+Theorem matches_all_char tb v t :
+  table_ok tb = true -> wf_ty tb t = true -> wf_val tb v = true ->
+  matches_all tb (abs v) t = forallb (inhabitsF pytype_devs tb t) (slices v).
+Proof.
+  intros Hok Hwt Hwv. pose proof (table_ok_tok tb Hok) as T.
+  unfold matches_all. rewrite views_abs, forallb_map.
+  apply forallb_ext_Forall. eapply Forall_impl; [|exact (slices_wf tb v Hwv)].
+  intros s [Hw Hs]. apply (matchm_slice tb T t Hwt s Hs Hw).
+Qed.
+
+Theorem matches_any_char tb v t :
+  table_ok tb = true -> wf_ty tb t = true -> wf_val tb v = true ->
+  matches_any tb (abs v) t = existsb (inhabitsF pytype_devs tb t) (slices v).
+Proof.
+  intros Hok Hwt Hwv. pose proof (table_ok_tok tb Hok) as T.
+  unfold matches_any. rewrite views_abs, existsb_map.
+  apply existsb_ext_Forall. eapply Forall_impl; [|exact (slices_wf tb v Hwv)].
+  intros s [Hw Hs]. apply (matchm_slice tb T t Hwt s Hs Hw).
+Qed.
+
+(* exactness, away from the deviations *)
+Theorem exact_partial tb v t :
+  table_ok tb = true -> wf_ty tb t = true -> wf_val tb v = true ->
+  (forall s, In s (slices v) -> inhabitsF pytype_devs tb t s = inhabits tb s t) ->
+  forallb (fun s => inhabits tb s t) (slices v) = inhabits tb v t ->
+  matches tb (abs v) t = inhabits tb v t.
+Proof.
+  intros Hok Hwt Hwv Hdev Hsl. unfold matches. rewrite matches_all_char by assumption.
+  rewrite <- Hsl. apply forallb_ext_Forall. apply Forall_forall. exact Hdev.
+Qed.
+
+Theorem sites_partial tb v t :
+  table_ok tb = true -> wf_ty tb t = true -> wf_val tb v = true ->
+  (forall s, In s (slices v) -> inhabitsF pytype_devs tb t s = inhabits tb s t) ->
+  forallb (fun s => inhabits tb s t) (slices v) = inhabits tb v t ->
+  err_ret tb v t = negb (inhabits tb v t) /\
+  (is_none v = false -> err_assign tb v t = negb (inhabits tb v t)) /\
+  (slices v = [v] -> err_arg tb v t = negb (inhabits tb v t)).
+Proof.
+  intros Hok Hwt Hwv Hdev Hsl.
+  pose proof (exact_partial tb v t Hok Hwt Hwv Hdev Hsl) as E. unfold matches in E.
+  repeat split.
+  - unfold err_ret. rewrite E. reflexivity.
+  - intro Hn. unfold err_assign. rewrite Hn, E. reflexivity.
+  - intro Hs. unfold err_arg. rewrite matches_any_char by assumption. rewrite Hs. cbn [existsb].
+    rewrite orb_false_r. rewrite Hdev by (rewrite Hs; left; reflexivity). reflexivity.
+Qed.
